@@ -87,6 +87,8 @@ def eq(x, y):
         return isinstance(y, float) and np.isnan(y)    
     elif isinstance(x, partial):
         return type(x) == type(y) and x.func == y.func and eq(x.keywords, y.keywords) and eq(x.args, y.args)
+    elif pd.api.types.is_scalar(x) and isinstance(y, (tuple, list, np.ndarray, pd.DataFrame, pd.Series, dict)):
+        return False # a scalar never equals a container (x == y would broadcast over y)
     else:
         try:
             res = x == y
